@@ -205,7 +205,7 @@ def step_prove(ctx, mods):
     rc2, out2, err2, _ = run(['lake', 'env', 'lean', afile], cwd=LEAN, timeout=1200)
     text = (out2 + err2).decode(errors='replace')
     axioms = {}
-    for m in re.finditer(r"'([^']+)' (depends on axioms: \[([^\]]*)\]|does not depend on any axioms)", text, re.S):
+    for m in re.finditer(r"^'(\S+)' (depends on axioms: \[([^\]]*)\]|does not depend on any axioms)", text, re.S | re.M):
         name = m.group(1)
         axs = [a.strip() for a in (m.group(3) or '').replace('\n', ' ').split(',') if a.strip()]
         axioms[name] = axs
